@@ -148,7 +148,9 @@ pub fn guarded<T>(f: impl FnOnce() -> T) -> Result<T, String> {
 }
 
 pub fn quiet_panics() {
-    std::panic::set_hook(Box::new(|_| {}));
+    if std::env::var("VERIF_LOUD").is_err() {
+        std::panic::set_hook(Box::new(|_| {}));
+    }
 }
 
 
